@@ -1,6 +1,6 @@
 (* C20 — property theorems only.  Statements are full; proofs are [exact lemma]. *)
 From Coq Require Import List Bool Permutation.
-From LE Require Import Conc.RWMutex Conc.Skeleton Conc.Progress Conc.SharedAppend Conc.SnapshotRead Conc.Atomic Gen.Skeletons Conc.Instances.
+From LE Require Import Conc.RWMutex Conc.Skeleton Conc.Progress Conc.SharedAppend Conc.SnapshotRead Conc.Atomic Conc.TipCache Gen.Skeletons Conc.Instances.
 Import ListNotations.
 
 (* Progress for safe skeletons under the writer-preferring RWMutex: if every program is balanced on every path, never
@@ -42,8 +42,14 @@ Theorem C20_chain_readers_writer_progress : progress3 (ops_blockCache ++ ops_Dat
 Proof. exact chain_readers_writer_progress. Qed.
 Theorem C20_certificate_pool_progress : progress2 ops_Pool.
 Proof. exact certificate_pool_progress. Qed.
-Theorem C20_event_emitter_progress : progress2 ops_EventEmitter.
+(* emitter + subscriptions, no liveness assumption on subscribers: plain sends are Block in the skeleton, so the old
+   Publish (send under the emitter lock) is not a safe program and this theorem does not survive a revert of the repair *)
+Theorem C20_event_emitter_progress : progress2 (ops_EventEmitter ++ ops_subscription).
 Proof. exact event_emitter_progress. Qed.
+(* the emitter lock is never held at an operation that may wait for another party (plain send/receive, Wait, select) *)
+Theorem C20_emitter_lock_never_held_while_waiting :
+  forallb (never_waits_holding lk_EventEmitter_rwMutex) ((ops_EventEmitter ++ ops_subscription) ++ ops_event_funcs) = true.
+Proof. exact emitter_lock_never_held_while_waiting. Qed.
 Theorem C20_diffdb_progress : progress2 ops_Database.
 Proof. exact diffdb_progress. Qed.
 Theorem C20_sync_progress : progress3 (ops_blockSyncer ++ ops_Syncer ++ ops_DataAccess ++ ops_Chain).
@@ -58,6 +64,22 @@ Proof. intros A. exact bulk_lookup_exactly_once. Qed.
 (* ... and every goroutine fan-out of the listed files uses one of these two disciplines (classified from the source) *)
 Theorem C20_fanouts_not_racy : forallb (fun p => discipline_ok (snd p)) fanouts = true.
 Proof. exact fanouts_ok. Qed.
+
+(* complete committed TIP.  Model (Conc/TipCache.v): AddBlock = database batch, then cache push; RemoveBlock = read the tip and
+   fetch the parent if the cache holds a single block, database batch, then popAndRefill; LastBlock = one atomic read of
+   the cache head at any moment in between.  For every cache size >= 1 and every operation sequence, in every state the
+   writer passes through a read returns a block, and it is the tip of the chain immediately before or immediately after
+   the writer operation in progress (the harness checks exactly this bracket with the writer's operation numbers). *)
+Theorem C20_tip_linearizable : forall mx ops s, Inv mx s ->
+  Forall (fun y => let '(s0, s1, x) := y in
+                   exists b, read x = Some b /\ (tip s0 = Some b \/ tip s1 = Some b)) (trace mx s ops).
+Proof. exact tip_linearizable. Qed.
+Theorem C20_quiescent_read_is_tip : forall mx ops s, Inv mx s ->
+  let s' := fold_left (fun a o => last (steps_of mx a o) a) ops s in read s' = tip s' /\ read s' <> None.
+Proof. exact quiescent_read_is_tip. Qed.
+(* pop first and reload afterwards (the code before ac4bab0): a reachable state in which LastBlock() has nothing to return *)
+Theorem C20_nil_tip_refuted : exists mx s o x, Inv mx s /\ In x (steps_of_old mx s o) /\ read x = None.
+Proof. exact nil_tip_refuted. Qed.
 
 (* complete blocks: a block is stored under several keys committed in one batch.  A getter that performs all its reads
    on one snapshot returns, in every state of every history of batches, exactly the block committed under that id or
